@@ -102,6 +102,7 @@ type In struct {
 	Seeds      []Seed `json:"seeds,omitempty"`
 	Steps      []Step `json:"steps"`
 	Tag        string `json:"tag,omitempty"`
+	Hist       bool   `json:"hist,omitempty"` // KeepCertificatesHistory: replaced certificates are moved to certificate_info_history
 }
 
 type ExitObs struct {
@@ -553,7 +554,7 @@ func run(in In, n int) (out Out) {
 
 	dbPath := filepath.Join(dir, "aggsender.sqlite")
 	openStorage := func() *aggsenderdb.AggSenderSQLStorage {
-		st, err := aggsenderdb.NewAggSenderSQLStorage(logger, aggsenderdb.AggSenderSQLStorageConfig{DBPath: dbPath})
+		st, err := aggsenderdb.NewAggSenderSQLStorage(logger, aggsenderdb.AggSenderSQLStorageConfig{DBPath: dbPath, KeepCertificatesHistory: in.Hist})
 		if err != nil {
 			panic(err)
 		}
